@@ -230,7 +230,15 @@ def FieldMap.amount (env : CsvEnv) (fm : FieldMap) (at_ : AccountType) (rec : Li
       | .ok (some d) =>
         if !c.isEmpty then
           match strToCommaDecimal env c with
-          | .ok v => .ok (v.getD {})
+          | .ok v =>
+            -- (fix F41) a statement that fills both cells prints a zero in the credit cell of a debit row
+            if (v.getD {}).isZero && !d.isEmpty then
+              match strToCommaDecimal env d with
+              | .ok w => .ok (w.getD {}).negate
+              | .err e => .err e
+              | .panic s => .panic s
+              | .fuelOut => .fuelOut
+            else .ok (v.getD {})
           | .err e => .err e
           | .panic s => .panic s
           | .fuelOut => .fuelOut
@@ -461,5 +469,12 @@ def csvImportFlagged (env : CsvEnv) (cfg : CsvCfg) (header : List String) (recor
 def csvImport (env : CsvEnv) (cfg : CsvCfg) (header : List String) (records : List (List String)) :
     Outcome ImportErr (List Txn) :=
   (csvImportFlagged env cfg header records).map' (List.map Prod.fst)
+
+/-- which cell decides the amount of a row with a credit and a debit column (`parse`: how a non-empty cell is read): the
+credit cell when it is filled with something other than zero (or the debit cell is empty), else minus the debit cell -/
+def CreditDebitRule (parse : String → Option Dec) (credit debit : String) (a : Dec) : Prop :=
+  (credit.isEmpty = false ∧ parse credit = some a ∧ (a.isZero = false ∨ debit.isEmpty = true)) ∨
+  (debit.isEmpty = false ∧ (credit.isEmpty = true ∨ (credit.isEmpty = false ∧ ∃ c0, parse credit = some c0 ∧ c0.isZero = true)) ∧
+    ∃ d, parse debit = some d ∧ a = d.negate)
 
 end Okane.Import
